@@ -406,6 +406,11 @@ class Fn:
             kind = rv[1]
             if isinstance(kind, list) and kind[0] == "adt":
                 return ("agg:%s::%s@%d" % (short(kind[1]), kind[2], sd[0]),) + tuple(ps)
+            # a field of a tuple built here (`match (a, b) { .. }`): the path of that operand
+            if kind == "tuple" and proj and isinstance(proj[0], list) and proj[0][0] == "f" and proj[0][1] < len(rv[2]):
+                opl = op_place(rv[2][proj[0][1]])
+                if opl is not None:
+                    return self.apath([opl[0], list(opl[1]) + list(proj[1:])], depth + 1, transparent)
             return ("agg@%d" % sd[0],) + tuple(ps)
         if k == "discr":
             return ("discr",) + self.apath(rv[1], depth + 1, transparent)
